@@ -217,6 +217,9 @@ MAX_PER_LABEL = [None]
 
 def run_schedule(make_bodies, choices, granularity, horizon=200000):
     install(granularity)
+    from . import modstate
+
+    modstate.restore()          # every execution starts from the same (cold) module-level state
     ex = Execution(make_bodies(), choices, horizon, MAX_PER_LABEL[0])
     return ex.run()
 
